@@ -96,6 +96,9 @@ partial def loop (h : IO.FS.Stream) (ln : Nat) (m : Mode) (r : Report) : IO Repo
       else if line.startsWith "P " then
         let (st', r') := codecP st ln line r
         loop h (ln + 1) (.codec st') r'
+      else if line.startsWith "BA " then
+        let (st', r') := codecBA st ln line r
+        loop h (ln + 1) (.codec st') r'
       else if line.startsWith "B " then
         let (st', r') := codecB st ln line r
         loop h (ln + 1) (.codec st') r'
